@@ -5,6 +5,9 @@ Spec: spec/Collections.tla.  State = the mathematical model only (Kind="set": a 
       cassandra.util.SortedSet / OrderedMap / OrderedMapSerializedKey; `act` = [name, arg, res, exc] records the
       observable outcome the intended semantics prescribe (set algebra, ascending iteration, KeyError / IndexError,
       insertion order kept on overwrite, ...).
+      A set-valued call (copy(), zero-operand union() / intersection() / difference(), the one-operand calls with {}
+      and with the receiver's own contents) hands out a SECOND object R; probes then change R (S must stay) or S
+      (R must stay), and `result is not s` is part of the projected state.
 TLC : one run per data type.  Every sequence of <= MaxSteps mutating operations, each followed by any observer;
       invariants IterationSorted, SetAlgebra, SetResults, MapWellFormed, MapResults, action property MapOrderStable;
       coverage guard (every named action taken) and Witness_* reachability predicates that must be violated.
@@ -48,10 +51,11 @@ META = {
 SET_ACTIONS = ["SNew", "SAdd", "SRemove", "SPop", "SClear", "SUpdate", "SIOr", "SIAnd", "SISub", "SIXor", "SDelItem",
                "SDelSlice", "SContains", "SLen", "SIter", "SReversed", "SCopy", "SGetItem", "SGetSlice", "SUnion",
                "SInter", "SDiff", "SRDiff", "SSymDiff", "SIsSubset", "SIsSuperset", "SIsDisjoint", "SLe", "SLt", "SGe",
-               "SGt", "SEq", "SNe"]
+               "SGt", "SEq", "SNe", "SDerive", "SMutR", "SMutS"]
 MAP_ACTIONS = ["MNew", "MSetItem", "MDelItem", "MPopItem", "MGetItem", "MGet", "MContains", "MLen", "MKeys", "MValues",
                "MItems", "MEqMap", "MNeMap", "MEqDict", "MNeDict"]
-WITNESSES = {"set": ["Witness_RemoveAbsent", "Witness_XorOverlap", "Witness_PopLeavesSmaller"],
+WITNESSES = {"set": ["Witness_RemoveAbsent", "Witness_ResultClearedOriginalKept", "Witness_OriginalClearedResultKept",
+                     "Witness_XorOverlap", "Witness_PopLeavesSmaller"],
              "map": ["Witness_OverwriteNotLast", "Witness_DeleteNotLast", "Witness_PopItemEmpty"]}
 
 ALL16 = [frozenset(x) for x in ((), (1,), (2,), (3,), (4,), (1, 2), (1, 3), (1, 4), (2, 3), (2, 4), (3, 4), (1, 2, 3),
@@ -93,7 +97,13 @@ def signature_of(kind, d):
     tail = ""
     if isinstance(obs, dict) and "exc" in obs and d["what"] == "result":
         tail = ":" + obs["exc"]
-    return "%s.%s:%s%s" % (cls, d["op"], d["what"], tail)
+    op = d["op"]
+    if op in ("derive", "mut_result", "mut_original"):       # name the call / probe, not only the action
+        arg = d["action"]["arg"]
+        op = "%s(%s)" % (op, arg[0])
+        if d["what"] == "result" and isinstance(obs, dict) and obs.get("same_object"):
+            tail = ":returns-self"
+    return "%s.%s:%s%s" % (cls, op, d["what"], tail)
 
 
 class Reporter:
@@ -275,8 +285,8 @@ def replay_plan(ctx, label, consts, graph, summary, reported):
         if k:
             ctx.nontrivial((label,) + k)
     for w in walks[:2]:
-        ctx.sample(rc.jsonable({"run": label, "behaviour": [{"act": nodes[x]["act"], "S": nodes[x]["S"], "M": nodes[x]["M"]}
-                                                            for x in w[1:]]}))
+        ctx.sample(rc.jsonable({"run": label, "behaviour": [{"act": nodes[x]["act"], "S": nodes[x]["S"], "M": nodes[x]["M"],
+                                                             "R": nodes[x].get("R", ())} for x in w[1:]]}))
     st = selftest(ctx, kind, n, nodes, max(walks, key=len), obs_out)
     summary.append({"run": label, "graph_nodes": len(nodes), "graph_edges": len(all_edges),
                     "mutator_edges": len(mut_edges), "exhaustive": exhaustive,
@@ -298,7 +308,7 @@ def run(ctx):
             return
         if kind not in done_w:                               # vacuity witnesses once per data type
             done_w.add(kind)
-            witnesses(ctx, kind, consts, WITNESSES[kind][:1] if ctx.quick else WITNESSES[kind][:2])
+            witnesses(ctx, kind, consts, WITNESSES[kind][:1] if ctx.quick else WITNESSES[kind][:3])
             if kind == "map":
                 small = dict(consts, MaxSteps=3, FullMapOps=False, ObserveAt={3},
                              MaxNew=1 if ctx.quick else 2)
